@@ -60,33 +60,39 @@ def check(r, ctx):
 NOVIRT = {}
 
 
+WRITER_USE = st.one_of(
+    st.just({}), st.just({}),
+    st.tuples(st.sampled_from(["xml", "pb"]), st.integers(1, 12)).map(lambda t: {"decoy": list(t)}),
+    st.just({"reuse": True}))
+
+
 def force_virtual(r):
     r["signs"][0]["virtual"] = True
     return r
 
 
 def s_virtual(tier):
-    return st.tuples(fp.file_scenario("pb", max_lanelets=3, max_obstacles=0, max_pps=0), st.booleans()).map(
-        lambda t: dict(t[0], use_scenario_meta=t[1])).filter(lambda r: len(r["signs"]) > 0).map(force_virtual)
+    return st.tuples(fp.file_scenario("pb", max_lanelets=3, max_obstacles=0, max_pps=0), st.booleans(), WRITER_USE).map(
+        lambda t: dict(t[0], use_scenario_meta=t[1], **t[2])).filter(lambda r: len(r["signs"]) > 0).map(force_virtual)
 
 
 def s_whole(tier):
-    return st.tuples(fp.file_scenario("pb", extra_profile=NOVIRT), st.booleans()).map(lambda t: dict(t[0], use_scenario_meta=t[1]))
+    return st.tuples(fp.file_scenario("pb", extra_profile=NOVIRT), st.booleans(), WRITER_USE).map(lambda t: dict(t[0], use_scenario_meta=t[1], **t[2]))
 
 
 def s_network(tier):
-    return st.tuples(fp.file_scenario("pb", max_lanelets=8, max_obstacles=0, max_pps=0, extra_profile=NOVIRT), st.booleans()).map(
-        lambda t: dict(t[0], use_scenario_meta=t[1]))
+    return st.tuples(fp.file_scenario("pb", max_lanelets=8, max_obstacles=0, max_pps=0, extra_profile=NOVIRT), st.booleans(), WRITER_USE).map(
+        lambda t: dict(t[0], use_scenario_meta=t[1], **t[2]))
 
 
 def s_obstacles(tier):
-    return st.tuples(fp.file_scenario("pb", max_lanelets=2, max_obstacles=6, max_pps=0, extra_profile=NOVIRT), st.booleans()).map(
-        lambda t: dict(t[0], use_scenario_meta=t[1]))
+    return st.tuples(fp.file_scenario("pb", max_lanelets=2, max_obstacles=6, max_pps=0, extra_profile=NOVIRT), st.booleans(), WRITER_USE).map(
+        lambda t: dict(t[0], use_scenario_meta=t[1], **t[2]))
 
 
 def s_pps(tier):
-    return st.tuples(fp.file_scenario("pb", max_lanelets=3, max_obstacles=0, max_pps=3, min_pps=1, extra_profile=NOVIRT), st.booleans()).map(
-        lambda t: dict(t[0], use_scenario_meta=t[1]))
+    return st.tuples(fp.file_scenario("pb", max_lanelets=3, max_obstacles=0, max_pps=3, min_pps=1, extra_profile=NOVIRT), st.booleans(), WRITER_USE).map(
+        lambda t: dict(t[0], use_scenario_meta=t[1], **t[2]))
 
 
 FACETS = [
